@@ -143,7 +143,8 @@ scmdProcessOrCheck(Bool doit, SrcPos spos, String cmd)
 	else if ((s = scmdIsDirective(cmd, "quit")) != 0) {
 		/* Doesn't make sense unless under the interpreter */
 		if (doit) {
-			if (comsgErrorCount() != 0)
+			/* Errors of the earlier files count as well. */
+			if (comsgErrorTotal() != 0)
 				exitFailure();
 			exitSuccess();
 		}
